@@ -227,10 +227,10 @@ func (sta *State) UsedRandomCleaner() {
 	}
 }
 
-func (sta *State) registerRandom(r [32]byte) bool {
+func (sta *State) registerRandom(r [32]byte, now time.Time) bool {
 	sta.usedRandomM.Lock()
 	_, used := sta.UsedRandom[r]
-	sta.UsedRandom[r] = sta.WorldState.Now().Unix()
+	sta.UsedRandom[r] = now.Unix()
 	sta.usedRandomM.Unlock()
 	return used
 }
